@@ -29,7 +29,7 @@ INVARIANTS = ['InvProcCount', 'InvExactNodes', 'InvPins', 'InvRefuse', 'InvOrder
               'InvResFixed']
 PROPERTIES = ['ActHistoryFree']
 DEVS = ['DevDplaceAccum', 'DevPalsHull', 'DevForkShrink', 'DevForkPrefix', 'DevMptCount',
-        'DevSrunFirst', 'DevFindLast']
+        'DevSrunFirst', 'DevFindLast', 'DevOptLeak']
 
 # deviation -> (invariants / properties left in the cfg, acceptable verdicts)
 DEV_EXPECT = {
@@ -40,6 +40,7 @@ DEV_EXPECT = {
     'DevMptCount'   : (None, ['InvProcCount']),
     'DevSrunFirst'  : (None, ['InvExactNodes']),
     'DevFindLast'   : (None, ['InvOrder']),
+    'DevOptLeak'    : (['InvProcCount', 'InvExactNodes', 'InvPins'], ['ActHistoryFree']),
 }
 
 CHUNK = 90          # events per monitor trace (a contiguous segment of one instance's life)
@@ -54,6 +55,7 @@ ORDERS = [
     (['fork', 'ssh', 'mpirun_mpt', 'prte'], ['ssh'], 'n1'),
     (['jsrun_erf', 'jsrun', 'fork'], ['jsrun_erf'], 'n1'),
     (['aprun', 'fork', 'ibrun'], ['aprun', 'ibrun'], 'n1'),
+    (['ibrun+empty', 'fork+pinned'], [], 'n1'),
     (['fork', 'ssh'], ['fork'], 'n1'),
     (['rsh', 'mpirun_dplace', 'ccmrun'], [], 'n1'),
     (['ssh', 'rsh'], [], 'n1'),
@@ -73,8 +75,8 @@ MODEL_ALIAS = ['n', 'n12', 'n1.cluster.org']
 
 
 def tla_cfg(spec):
-    return 'Cfg("%s", "%s", "%s", %s)' % (spec['m'], spec['fl'], spec['mode'],
-                                          'TRUE' if spec['vnew'] else 'FALSE')
+    return 'CfgO("%s", "%s", "%s", %s, "%s")' % (spec['m'], spec['fl'], spec['mode'],
+                                                 'TRUE' if spec['vnew'] else 'FALSE', spec['opt'])
 
 
 def mc_files(devs=(), maxranks=4, maxhist=3, invariants=None, props=None):
@@ -259,6 +261,8 @@ def report(chk, batch, notes=True):
 # ------------------------------------------------------------------------------
 def selftest(chk):
     '''interpreter + monitor against the repository's recorded command lines'''
+    if not R.digest_selftest():
+        raise Machinery('config_digest does not see changes of lm_cfg / rm_info')
     traces, labels = R.recorded_traces()
     if len(traces) < 40:
         raise Machinery('only %d recorded launch commands found' % len(traces))
@@ -324,7 +328,7 @@ def behaviours_to_batch(dump, rng, batch, fresh):
                 raise Machinery('no rig configuration for %s' % spec)
             cfgname = rng.choice(names)
             # the model's limit is 2, the code's 42: scale the placements back
-            factor = R.SCALE if cfgname in R.LIMIT_SENSITIVE and rng.random() < 0.8 else 1
+            factor = R.SCALE if R.limit_sensitive(cfgname) and rng.random() < 0.8 else 1
             pls = [R.scale(p, factor) for p in gens]
             batch.add_instance(cfgname, pls + pls[:1], fresh, kind='tlc-behaviour')
             n += 1
@@ -336,10 +340,10 @@ def enum_batch(tier, rng, batch, fresh):
     plac  = all_placements()
     extra = extra_placements()
     hist  = hist_tasks()
-    for cfgname in sorted(R.CONFIGS):
-        sens = cfgname in R.LIMIT_SENSITIVE
+    for ci, base in enumerate(R.BASES):
+        sens = R.limit_sensitive(base)
         if quick:
-            body = rng.sample(plac, 130)
+            body = rng.sample(plac, 105)
         else:
             body = list(plac)
             rng.shuffle(body)
@@ -347,9 +351,21 @@ def enum_batch(tier, rng, batch, fresh):
         if sens:
             sc = rng.sample(plac, 12 if quick else 160)
             body += [R.scale(p) for p in sc]
-        for inst_no, plen in enumerate([1, 3] if quick else [2, 3]):
-            prefix = [rng.choice(hist) for _ in range(plen)]
-            if sens and inst_no == 1:
+        # the options section of the launch method config: absent / empty /
+        # pinned.  Every method sees two of the classes per run (which two
+        # rotates with the configuration), a method that reads an option
+        # (IBRUN) all three, each behind two different histories.
+        if R.spec_of(base)['m'] == 'IBRUN':
+            runs = [(o, plen) for o in R.OPTS for plen in ([1, 3] if quick else [2, 3])]
+        else:
+            runs = [(R.OPTS[(ci + k) % 3], plen) for k, plen in enumerate([1, 3] if quick else [2, 3])]
+        for inst_no, (opt, plen) in enumerate(runs):
+            cfgname = R.variant(base, opt)
+            # histories: tasks of different sizes, both orders (hist is ordered
+            # by size; odd instances run theirs largest first)
+            prefix = sorted(rng.sample(hist, plen), key=lambda p: len(p['p']),
+                            reverse=bool(inst_no % 2))
+            if sens and inst_no % 2 == 1:
                 prefix = [R.scale(p) if rng.random() < 0.5 else p for p in prefix]
             seg = list(body) if not quick else rng.sample(body, len(body))
             # every segment of the instance's life (one monitor trace) ends by
@@ -360,7 +376,7 @@ def enum_batch(tier, rng, batch, fresh):
                 pls += part + [part[0], rng.choice(part)]
                 room = CHUNK - 2
             batch.add_instance(cfgname, pls, fresh,
-                               openmp=(cfgname.startswith('jsrun') and inst_no == 1))
+                               openmp=(base.startswith('jsrun') and inst_no % 2 == 1))
     # find_launcher over configured orders
     single = [p for p in extra if len(p['p']) == 1]
     ftasks = hist + single + [p for p in extra if not p['exe'] and len(p['p']) > 1] \
@@ -374,7 +390,7 @@ def enum_batch(tier, rng, batch, fresh):
             for c in rng.sample(names, rng.randint(1, 5)):
                 if R.CONFIGS[c][0] not in seen:
                     seen.add(R.CONFIGS[c][0])
-                    order.append(c)
+                    order.append(R.variant(c, rng.choice(R.OPTS)))
             broken = [c for c in order[1:] if rng.random() < 0.25]     # at least one usable
             rng.shuffle(order)
             batch.add_find(order, broken, single + rng.sample(ftasks, 12), rng.choice(AGENT_HOSTS))
